@@ -137,6 +137,14 @@ def run_recv(c, P):
     else:
         stream = build_stream(c, P)
     w.default_script = HsThenCuts(w, hconn.server_stream(stream), P.get('cuts', 'one'), end='eof')
+    if P.get('reads') == 'joined':
+        # the upgrade reply and the frames behind it arrive in the SAME read (as much as the receive buffer takes)
+        w.default_script = Script(hconn.server_stream(stream), cuts='one', end='eof')
+    elif P.get('reads') == 'tls16k':
+        # TLS-like: the reply is split over two records (split position = solver variable), the following records are full
+        k = [1, 17, 100][c.choose(3, 'hs_split')]
+        w.default_script = Script(hconn.server_stream(stream), cuts=[k] + [16384] * 12, end='eof')
+        tcls = (tcls or '') + ':split%d' % k
     if P.get('fault'):
         F = P['fault']
         w.fault_hook = env.SymFaults(F['ops'], F.get('kinds', ['oserror']), F.get('max', 1), F.get('skip'))
